@@ -9,6 +9,7 @@ The extracted Coq model prints its answer in both segments (avfs claims equality
   avfs == oracle != model   the model (what the theorems speak about) does not describe the code,
 and `pi` lines (PathIterator) compare avfs with the model only.  Every deviation is a VIOLATION.
 """
+import os
 import re
 
 from ..props import CHECKS
@@ -80,6 +81,25 @@ def check_C13(ctx):
     mm = ctx.stream("path", "path", "path", tags="avfs_setostype")
     if mm is None:
         return
+    # known finding: Rel does not return where the toolchain's Windows Rel does not either.  Reproduced on its
+    # witness by a real call (the main stream really calls avfs on the first few such inputs only).
+    for kf in ctx.kf:
+        if kf.get("id") != "C13-rel-unc-root-loop":
+            continue
+        wit = " ".join(kf["witness"].split()[:4])
+        mmk = ctx.stream("path-kf", "path", "path", tags="avfs_setostype", replay_lines=[wit])
+        if mmk is None:
+            return
+        try:
+            obs = open(os.path.join(ctx.dir, "path-kf.observed")).read().strip()
+        except OSError:
+            obs = ""
+        segs = obs.split(" || ")
+        if len(segs) == 2 and fields(segs[0]).get("rel") == "loop" and fields(segs[1]).get("rel") == "loop":
+            ctx.known_finding(kf["id"], kf["what"])
+            ctx.coverage["streams"]["path"]["rel_nonterminating_inputs"] = \
+                ctx.coverage["streams"]["path"].get("distribution", {}).get("outcome:rel-loop", 0)
+        mm = mm + [(-1, c, m, o) for (_, c, m, o) in mmk]
     kinds = {"oracle": [], "model": []}
     byfield = {"oracle": {}, "model": {}}
     for (i, c, m, o) in mm:
